@@ -75,9 +75,11 @@ Verdict(e) ==
   ELSE IF ~AffMeasures(e) THEN R("AffineInv", "measures", e)
   ELSE <<"ACCEPT", "", "", Tags(e)>>
 
+\* all verdicts, evaluated once at constant level (TLC caches LET definitions only there)
+Verdicts == TLCEval([k \in 1..Len(Trace) |-> Verdict(Trace[k])])
 Init == i = 1
 Next == /\ i <= Len(Trace)
-        /\ LET v == Verdict(Trace[i])
+        /\ LET v == Verdicts[i]
            IN PrintT(<<"V", Trace[i].case, v[1], v[2], v[3], v[4]>>)
         /\ i' = i + 1
 =============================================================================
